@@ -191,4 +191,4 @@ def simplify(case):
 
 
 def run_shard(ctx):
-    ctx.drive("zooming", cases(ctx.tier), check_case, ctx.budget(1600, 24000))
+    ctx.drive("zooming", cases(ctx.tier), check_case, ctx.budget(6000, 40000))
